@@ -368,3 +368,35 @@ def first_diff(a, b):
         if x != y:
             return k
     return min(len(a), len(b)) if len(a) != len(b) else None
+
+
+def desugar_intervals(toks):
+    """{ lo op1 x op2 hi }  ->  ( ( lo op1 x ) AND ( x op2 hi ) ), innermost first; returns (tokens, number of intervals rewritten).
+    The front end builds exactly this conjunction when it reads an interval, so a printed schema can be compared beyond that (listed) deviation."""
+    toks = list(toks)
+    n = 0
+    while True:
+        close = next((i for i, t in enumerate(toks) if t == ('op', '}')), None)
+        if close is None:
+            return toks, n
+        opn = max((i for i in range(close) if toks[i] == ('op', '{')), default=None)
+        if opn is None:
+            return toks, n
+        inner = toks[opn + 1:close]
+        depth = 0
+        cuts = []
+        for i, t in enumerate(inner):
+            if t[0] == 'op' and t[1] in ('(', '['):
+                depth += 1
+            elif t[0] == 'op' and t[1] in (')', ']'):
+                depth -= 1
+            elif depth == 0 and t[0] == 'op' and t[1] in ('<', '<='):
+                cuts.append(i)
+        if len(cuts) != 2:
+            toks[opn] = ('op', '(')          # not of the expected form: leave the content, drop the braces so that the loop ends
+            toks[close] = ('op', ')')
+            continue
+        lo, mid, hi = inner[:cuts[0]], inner[cuts[0] + 1:cuts[1]], inner[cuts[1] + 1:]
+        new = [('op', '('), ('op', '(')] + lo + [inner[cuts[0]]] + mid + [('op', ')'), ('id', 'and'), ('op', '(')] + mid + [inner[cuts[1]]] + hi + [('op', ')'), ('op', ')')]
+        toks[opn:close + 1] = new
+        n += 1
